@@ -87,4 +87,15 @@ CHECKS["C10"] = {
             "main.run is exercised end to end for representative option sets.",
     "note": TRUST + "The port map is a solver-decided mapping object instead of a dict (same override order). Reader/writer/file system are stubs in the wiring harness.",
 }
+CHECKS["C02"] = {
+    "technique": "symbolic execution of the whole QUIC path (main.handle_quic_packet, QuicSession, dissector, header-protection removal, packet-number decoding, QuicDecryptor, frame and TLS-message parsing, key installation and update, QUICOutputbuilder) against RFC 9000/9001 reference endpoints under an ideal-cryptography model",
+    "text": "For each of the four QUIC suites and a set of connection shapes (coalescing, frame mixes, several streams, STREAM without "
+            "length, packet-number lengths and gaps, ClientHello split over CRYPTO frames/packets out of order, one and two key "
+            "updates, NEW_CONNECTION_ID switch, Retry, 0-RTT, other suite offered first, key-log order, connection-id lengths "
+            "including zero) with randoms, secrets, connection ids, stream data and every ciphertext byte symbolic, z3 shows that "
+            "the non-empty exported UDP payloads equal the STREAM data sent, datagram by datagram and direction by direction. "
+            "Sampled passing paths are re-run end to end on the real program with real cryptography.",
+    "note": TRUST + "Ideal AEAD, header-protection masks and HKDF as uninterpreted functions; connection ids assumed prefix-free and not "
+            "spelled by ciphertext bytes; packet numbers are concrete sequences here (C16 covers reconstruction over the full range). Bounds in the evidence.",
+}
 NOT_APPLICABLE = {}
